@@ -86,3 +86,6 @@ Print Assumptions C05_results_from_same_rows.
 Print Assumptions C05_cost_from_passes.
 Print Assumptions C05_engine_reuse.
 Print Assumptions C05_fixed_level_variant.
+Print Assumptions C05_nonvacuous_repaired.
+Print Assumptions C05_stale_manager_before_repair.
+Print Assumptions C05_phantom_sample_before_repair.
